@@ -62,13 +62,14 @@ var c13Watchdog = time.Duration(kit.EnvInt("C13_WATCHDOG_MS", 30000)) * time.Mil
 const (
 	c13BaseEpoch = 5
 	c13Accepted  = "accepted"
+	c13NotLeader = "not-partition-leader(api gate, Subscribe not called)"
 	c13InitMsgs  = 5
 )
 
 // ---------------------------------------------------------------- program
 
 type c13Act struct {
-	Kind          string `json:"kind"` // sub | cancel | close | undrain | release
+	Kind          string `json:"kind"` // sub | cancel | close | undrain | release | partition lifecycle events (c13_lifecycle_test.go): bounce | follow | lead | ro | rw | pause | resume
 	G             int    `json:"group"`
 	Cid           string `json:"consumer,omitempty"`
 	Epoch         uint64 `json:"epoch,omitempty"`
@@ -97,6 +98,8 @@ func (a c13Act) String() string {
 			return "release(all)"
 		}
 		return "release(1)"
+	case "bounce", "follow", "lead", "ro", "rw", "pause", "resume":
+		return c13LifecycleNames[a.Kind]
 	}
 	return fmt.Sprintf("%s(g%d,%s)", a.Kind, a.G, a.Target)
 }
@@ -289,7 +292,20 @@ type c13Event struct {
 
 type c13Stream struct {
 	name string
-	p    *partition
+	mu   sync.Mutex
+	p    *partition // replaced when the partition is resumed after a pause
+}
+
+func (st *c13Stream) part() *partition {
+	st.mu.Lock()
+	defer st.mu.Unlock()
+	return st.p
+}
+
+func (st *c13Stream) setPart(p *partition) {
+	st.mu.Lock()
+	st.p = p
+	st.mu.Unlock()
 }
 
 // ---------------------------------------------------------------- case
@@ -318,6 +334,11 @@ type c13Case struct {
 	hookFired  int
 	hookExited int
 	counts     map[string]int64
+
+	lcStamps     []c13LcStamp
+	lcEvents     []string // lifecycle events executed: kind:#active subscriptions at that moment
+	lcWithActive int
+	lifecycle    bool // the program contains partition lifecycle events: subscribes are gated the way api.Subscribe gates them (partition leader, not paused)
 
 	failed      bool
 	inconc      bool
@@ -419,7 +440,7 @@ func (c *c13Case) onHook(group, cid string) {
 	lookFrom := c.tick()
 	var seenSub *subscription
 	var desc string
-	if e := c.st.p.GetGroupConsumer(group); e != nil {
+	if e := c.st.part().GetGroupConsumer(group); e != nil {
 		seenSub = e.sub
 		desc = fmt.Sprintf("{consumer %s epoch %d}", e.consumerID, e.groupEpoch)
 	}
@@ -477,7 +498,7 @@ func (c *c13Case) releaseParked(all bool) int {
 // ---------------------------------------------------------------- actions
 
 func (c *c13Case) request(a c13Act) *client.SubscribeRequest {
-	newest := c.st.p.log.NewestOffset()
+	newest := c.st.part().log.NewestOffset()
 	req := &client.SubscribeRequest{Stream: c.st.name, Partition: 0,
 		Consumer: &client.Consumer{GroupId: c.groups[a.G], ConsumerId: a.Cid, GroupEpoch: a.Epoch}}
 	switch a.Mode {
@@ -515,10 +536,25 @@ func (c *c13Case) request(a c13Act) *client.SubscribeRequest {
 
 func (c *c13Case) doSub(a c13Act) *c13Call {
 	call := &c13Call{Round: c.round, G: a.G, Group: c.groups[a.G], Cid: a.Cid, Epoch: a.Epoch, Mode: a.Mode}
+	p := c.st.part()
+	if c.lifecycle && !c.apiWouldSubscribe(p) {
+		// api.Subscribe refuses a subscription on a server that is not the
+		// partition leader (and group subscriptions may not read from a
+		// follower); a paused partition is not subscribed to either.
+		call.Inv = c.tick()
+		call.Ret = c.tick()
+		call.Result = c13NotLeader
+		c.mu.Lock()
+		call.Idx = len(c.calls)
+		c.calls = append(c.calls, call)
+		c.counts["subscribes_refused_by_the_api_gate(not_leader_or_paused)"]++
+		c.mu.Unlock()
+		return call
+	}
 	req := c.request(a)
 	ctx, cancel := context.WithCancel(context.Background())
 	call.Inv = c.tick()
-	sub, st := c.st.p.Subscribe(ctx, req)
+	sub, st := p.Subscribe(ctx, req)
 	call.Ret = c.tick()
 	var s *c13Sub
 	if st != nil {
@@ -613,6 +649,8 @@ func (c *c13Case) exec(a c13Act) {
 		}
 	case "release":
 		c.n("parked_cleanups_released_by_program", int64(c.releaseParked(a.All)))
+	default:
+		c.execLifecycle(a)
 	}
 }
 
@@ -634,9 +672,10 @@ func (c *c13Case) wait(cond func() bool) bool {
 }
 
 func (c *c13Case) subscriberCount() int64 {
-	c.st.p.mu.RLock()
-	defer c.st.p.mu.RUnlock()
-	return c.st.p.subscriberCount
+	p := c.st.part()
+	p.mu.RLock()
+	defer p.mu.RUnlock()
+	return p.subscriberCount
 }
 
 // quiesce releases every gate and waits until every loop that should end has
@@ -664,11 +703,12 @@ func (c *c13Case) quiesce(final bool) bool {
 	ok := c.wait(func() bool {
 		c.releaseParked(true)
 		nact := 0
+		ending := c.lifecycle && c.logEnds()
 		for _, s := range subs {
 			if s.active() {
 				nact++
-				if !s.forever {
-					return false // has a stop position and its consumer is receiving: it will end by itself
+				if !s.forever || ending {
+					return false // has a stop position (or the log is read-only / closed) and its consumer is receiving: it will end by itself
 				}
 			} else {
 				s.cancel()
@@ -787,7 +827,7 @@ func (c *c13Case) violation(fp, what string, extra map[string]interface{}) {
 func (c *c13Case) staleClass(o *c13Sub) string {
 	c.mu.Lock()
 	defer c.mu.Unlock()
-	same, other := false, false
+	same, other, exact := false, false, false
 	for _, p := range c.passes {
 		if p.Group != o.call.Group || (p.doneBy != 0 && p.doneBy < o.call.Inv) {
 			continue // other group, or completed before o was even requested
@@ -795,11 +835,21 @@ func (c *c13Case) staleClass(o *c13Sub) string {
 		// p can have removed o's entry if it saw it, or if it looked before
 		// o's Subscribe returned (o installed between the look and the removal)
 		if p.entrySeen == o.sub || p.LookFrom == 0 || p.LookFrom < o.call.Ret {
+			if p.entrySeen == o.sub {
+				exact = true
+			}
 			if p.Cid == o.call.Cid {
 				same = true
 			} else {
 				other = true
 			}
+		}
+	}
+	if !exact {
+		// no clean-up was seen holding o's entry: a partition lifecycle event
+		// that ran after o was installed is the nearer suspect
+		if ev := c.eventClassAfter(o.call.Ret); ev != "" {
+			return "after-partition-event:" + ev
 		}
 	}
 	switch {
@@ -866,7 +916,7 @@ func (c *c13Case) check(quiescent bool) {
 				gs = append(gs, s)
 			}
 		}
-		e := c.st.p.GetGroupConsumer(group)
+		e := c.st.part().GetGroupConsumer(group)
 		now := c.tick()
 		var named *c13Sub
 		for _, s := range gs {
@@ -1007,6 +1057,8 @@ func (c *c13Case) check(quiescent bool) {
 				continue
 			case k.Result == codes.InvalidArgument.String() && k.Mode == "invalid":
 				continue
+			case k.Result == c13NotLeader:
+				continue
 			case k.Result != codes.FailedPrecondition.String():
 				c.n("unexpected_result_"+k.Result+"_mode_"+k.Mode, 1)
 				continue
@@ -1137,6 +1189,9 @@ func (c *c13Case) signature() string {
 	for _, p := range c.passes {
 		fmt.Fprintf(&sb, "|%s:%d", p.How[:2], len(p.ActiveSeen))
 	}
+	for _, e := range c.lcEvents {
+		sb.WriteString("|ev:" + e)
+	}
 	return sb.String()
 }
 
@@ -1156,6 +1211,9 @@ func (c *c13Case) finish() {
 			}
 		}()
 	}
+	if c.lifecycle {
+		c.restore()
+	}
 	for _, g := range c.groups {
 		if ok {
 			c13Groups.Delete(g)
@@ -1171,6 +1229,9 @@ func (c *c13Case) finish() {
 	c.rep.Count("rounds_with_concurrent_same_group_subscribes", int64(c.concurrent))
 	c.rep.Count("cleanups_released_while_another_sub_of_the_group_was_active", int64(c.stalePasses))
 	nt := c.stalePasses > 0 || c.concurrent > 0
+	if c.lifecycle {
+		nt = c.lcWithActive > 0
+	}
 	c.mu.Unlock()
 	if nt {
 		c.rep.Nontrivial(sig)
@@ -1187,7 +1248,11 @@ type c13Env struct {
 }
 
 func c13Start(rep *kit.Report, tag string, nstreams int) *c13Env {
-	cl, srv, err := vfSingle(tag, nil)
+	return c13StartWith(rep, tag, nstreams, nil)
+}
+
+func c13StartWith(rep *kit.Report, tag string, nstreams int, mut func(*Config)) *c13Env {
+	cl, srv, err := vfSingle(tag, mut)
 	if err != nil {
 		rep.Inconc("server did not start: " + err.Error())
 		return nil
